@@ -1,11 +1,15 @@
 #!/bin/bash
-# seedcheck.sh <patch.diff> <ID> [tier] : apply a seeded change to /repo, run the check, undo.
+# seedcheck.sh <patch.diff> <ID> [tier] : run a check against a seeded change.
+# The change is applied to a scratch copy of /repo's working tree (VERIF_REPO), which is what the
+# check copies and rebuilds from, so /repo itself is never touched and other checks may run meanwhile.
+# (Equivalent to: git -C /repo apply <patch>; ./check <ID>; git -C /repo checkout -- .)
 set -u
 P="$(readlink -f "$1")"; ID="$2"; TIER="${3:-quick}"
-cd /repo || exit 2
-git diff --quiet || { echo "repo dirty"; exit 2; }
-git apply "$P" || { echo "patch does not apply"; exit 2; }
-OUT=$(cd /verif && ./check "$ID" "$TIER" 2>&1); RC=$?
-git -C /repo checkout -- . ; git -C /repo clean -fdq
+SC=$(mktemp -d /dev/shm/seedrepo-XXXXXX)
+trap 'rm -rf "$SC"' EXIT
+rsync -a --exclude .git /repo/ "$SC"/
+(cd "$SC" && git init -q . 2>/dev/null; patch -p1 -s < "$P") || { echo "patch does not apply"; exit 2; }
+OUT=$(cd /verif && VERIF_REPO="$SC" VERIF_EVIDENCE_DIR="$SC/.evidence" ./check "$ID" "$TIER" 2>&1); RC=$?
 echo "$OUT" | grep -E "^\s+\[|^VIOLATION|INTERNAL" | head -12
 echo "seedcheck $ID $(basename "$(dirname "$P")") rc=$RC"
+exit $RC
